@@ -32,15 +32,26 @@ def ctl_sweep(job):
         k = 0
         for mode in job.get("modes", ["pause", "cancel"]):
             for pos in range(1, len(base) + 1):
-                for variant in range(2):
+                for variant in range(3):
                     k += 1
                     if only and k != only[1]:
                         continue
-                    req = {"pause": ["pausing", "paused"], "cancel": ["canceling", "canceled"]}[mode][variant]
+                    req = {"pause": ["pausing", "paused"], "cancel": ["canceling", "canceled"]}[mode][variant % 2]
                     run = explore.make_run(case, workloads.monitors(job.get("flags")), model=m)
                     explore.play_script(run, base[:pos])
                     run.request(req)
                     C["insertion_points"] = C.get("insertion_points", 0) + 1
+                    if variant == 2 and run.inflight:
+                        # the provider forwards the request to the running actions, which report the transitional
+                        # status first (canceling / pausing); canceled actions then end as canceled
+                        echo = "canceling" if mode == "cancel" else "pausing"
+                        order = sorted(range(len(run.inflight)), key=lambda i: h64(seed, pos, run.inflight[i]["uid"]))
+                        for i in order:
+                            if h64(seed, pos, i, "e") % 3:
+                                run.report_status(i, echo)
+                        C["provider_echo_runs"] = C.get("provider_echo_runs", 0) + 1
+                        if mode == "cancel":
+                            run.outcomes.force = lambda a: (("canceled", None) if h64(seed, a["uid"]) % 2 else None)
                     # the rest of the run is free; a paused workflow is resumed once it has come to rest
                     explore.run_free(run, explore.Policy(pseed=pseed, lazy_pct=job.get("lazy", 30)), start=False)
                     run.finish()
